@@ -6,27 +6,86 @@ every pair and triple of data-shape class representatives x count pairs, keys
 as strings and as Group objects, on the temperature grid of the common range;
 plus every such mapping with 1-2 descriptors that lack the property set
 inserted (with counts 1, 0, 0.0 and -2) at the first, middle and last position.
+
+Third wave (domains/w3_c01.py) - libraries that are built, not loaded:
+* constructor-built libraries of three descriptors, each carrying one of three
+  correlation objects {X, X' (equal data, another object), Y}: all 27
+  assignments (so every way in which descriptors can share one object or hold
+  equal ones) x every non-empty subset of the descriptors x the count
+  alphabets, both key orders;
+* synonym libraries: for every library and every data-shape class
+  representative g, the library's items re-given to the constructor plus a
+  descriptor that carries g's own correlation object; all mappings containing
+  both (count pairs, both orders) and triples with a second representative;
+* histories on ONE library object (a constructor-made copy of each library,
+  a hand-made library, and freshly loaded objects of the libraries without
+  uncertainty data): descriptors without data are probed (nothing / Estimate /
+  lib[...] / lib.get) before every Update(), the Updates add them in every
+  sequence of disjoint additions, and after the last Update (and in every
+  Estimate probe) every non-empty subset of {a present group, the two new
+  descriptors} is estimated: exact sum when all are present by then,
+  missing-data error naming exactly the absent ones otherwise.  The witness
+  of a history is the whole history.
 """
 from ..runner import Result
 from ..domains import estimates as E
 from ..domains import libs
+from ..domains import w3_c01 as W
 
 LEVEL = 'exploration'
 LIBS = libs.LIBS + ['synthetic']
 BOUND = {'quick': 'all unit vectors x 7 counts; all pairs (5 count pairs, both '
                   'key orders) and triples of data-shape class representatives; '
                   'string and Group keys; missing-data variants of every unit '
-                  'and class-pair mapping',
+                  'and class-pair mapping. Built libraries: 27 assignments of 3 '
+                  'correlation objects (two of them equal in data) to 3 '
+                  'descriptors x (21 unit + 30 pair + 8 triple mappings), '
+                  'string and Group keys; one synonym library per (library, '
+                  'data-shape representative) x (10 pair + 3 triple mappings), '
+                  'string and Group keys; histories: for each of the 10 '
+                  'libraries and one hand-made library, on a constructor-made '
+                  'copy: 5 Update sequences over 2 new descriptors x 4 kinds '
+                  'of probe before each Update = 44 (string keys; also object '
+                  'keys on the synthetic and the hand-made base); for the 7 '
+                  'libraries without uncertainty data, on a freshly loaded '
+                  'object: one Update adding both x 4 probes = 4; every '
+                  'history ends in 7 judged estimates (all non-empty subsets '
+                  'of {present group, the two new descriptors}), every '
+                  'estimate probe is the same 7',
          'thorough': 'additionally all pairs of groups for libraries with <= 80 '
-                     'groups'}
+                     'groups; the built-library, synonym and history families '
+                     'at the same bound as quick'}
 RULE = ('each mapping is estimated on a FRESH library object (no molecule has '
         'been decomposed) and every non-dimensional property is compared with '
         'the harness\'s own sum over the constituents evaluated one by one; '
         'non-trivial = at least two terms, a non-unit count, or a property some '
-        'constituent has no data for, or a missing-data variant')
+        'constituent has no data for, or a missing-data variant. Built and '
+        'synonym libraries go through the same comparison on a library made by '
+        'the constructor. A history runs on a library object of its own; the '
+        'expected sum is taken over correlation objects the harness holds '
+        '(those it handed to Update(), and the present group\'s object taken '
+        'from lib.contents before the first step), never through the library '
+        'lookup whose behaviour over time is the thing under test; every '
+        'history case is non-trivial')
 ASSUMPTIONS = ['relative tolerance 1e-9 on the sums',
                'temperatures: ends and middle of the common range, reference '
-               'temperatures inside it']
+               'temperatures inside it',
+               'histories: Update() only ever ADDS descriptors that have no '
+               'thermochem data yet (merging into existing data is C13); the '
+               'library copies what it is given, so the harness-held originals '
+               'are the expectation',
+               'a constructor-made copy of a library shares the scheme and the '
+               'correlation objects of a privately loaded original, which no '
+               'case modifies; it has no uncertainty block, and freshly loaded '
+               'libraries WITH uncertainty data get no history: a descriptor '
+               'outside the uncertainty basis must make the estimate fail '
+               '(C20), so "added by Update(), then estimated" is outside C01 '
+               'there',
+               'histories compare the sums at one temperature (middle of the '
+               'common range); if Update() itself refuses an addition the '
+               'history ends without a verdict and a note is written '
+               '(observed: a YAML-loaded library that names the group with an '
+               'empty block raises TypeError - C13\'s ground)']
 MANIFEST = dict(
     technique='exhaustive enumeration of descriptor->count mappings over every '
               'group of every library vs constituent-wise recomputation',
@@ -36,10 +95,28 @@ MANIFEST = dict(
          'G/RT of the estimate equals sum(count x constituent) at every grid '
          'temperature (or raises the incomplete-data error exactly when a '
          'constituent does); inserting descriptors without data anywhere in '
-         'the mapping raises the missing-data error naming exactly those.',
+         'the mapping raises the missing-data error naming exactly those. The '
+         'same holds for libraries built with the constructor in which '
+         'descriptors share one correlation object or hold equal ones (all 27 '
+         'assignments of 3 objects to 3 descriptors; a synonym of every '
+         'data-shape representative of every library), and on one library '
+         'object over time: a descriptor that was looked up or estimated '
+         'while absent and then added by Update() contributes exactly its '
+         'data afterwards (every sequence of additions of two descriptors x '
+         'every kind of earlier probe).',
     note='Counts come from a 7-value alphabet; mappings larger than three '
-         'terms are not enumerated.',
+         'terms are not enumerated. Histories contain at most two Update() '
+         'calls and only additions.',
     ref='5/C01')
+
+
+def fresh(name):
+    """Library by name: shipped / synthetic, or one of the built ones."""
+    if name.startswith('w3ctor:'):
+        return W.ctor_library(name)
+    if name.startswith('w3syn:'):
+        return W.synonym_library(name)
+    return E.fresh(name)
 
 
 def estimate(lib, mapping, as_group=False):
@@ -186,24 +263,239 @@ def run_lib(R, name, i, n, tier):
             check_missing(R, name, lib, mapping)
 
 
+# ------------------------------------------------------- built libraries
+
+def run_ctor(R, i, n):
+    for k, name in enumerate(W.ctor_names()):
+        if k % n != i:
+            continue
+        lib = W.ctor_library(name)
+        for tag, mapping in W.ctor_mappings(lib):
+            check_mapping(R, name, lib, tag, mapping, as_group=False)
+            if tag != 'built-unit' or mapping[0][1] == 1:
+                check_mapping(R, name, lib, tag, mapping, as_group=True)
+
+
+def run_synonyms(R, libname, base):
+    reps = [str(g) for g in E.class_reps(base)]
+    for k, gname in enumerate(reps):
+        hname = reps[(k + 1) % len(reps)] if len(reps) > 1 else None
+        name = W.syn_name(libname, gname)
+        lib = W.synonym_library(name, base)
+        for tag, mapping in W.syn_mappings(lib, gname, hname):
+            check_mapping(R, name, lib, tag, mapping, as_group=False)
+            check_mapping(R, name, lib, tag, mapping, as_group=True)
+
+
+# ------------------------------------------------------------- histories
+
+def grid_of(cons):
+    rs = [k.get_range() for k, _ in cons]
+    rs = [(float(r[0]), float(r[1])) for r in rs if r is not None]
+    if not rs:
+        return [500.0]
+    lo, hi = max(r[0] for r in rs), min(r[1] for r in rs)
+    if lo > hi:
+        return []
+    return [0.5 * (lo + hi)]
+
+
+def compare_history_sum(R, ctx, e, cons, wit):
+    for T in grid_of(cons):
+        for prop in E.PROPS:
+            R.evals += 1
+            R.nontrivial += 1
+            got = E.ev(getattr(e, prop), T)
+            parts = [E.ev(getattr(k, prop), T) for k, _ in cons]
+            if any(p[0] == 'exc' for p in parts):
+                exs = set(p[1] for p in parts if p[0] == 'exc')
+                if got[0] == 'exc' and got[1] in exs:
+                    R.outcomes['hist:propagates:' + got[1]] += 1
+                else:
+                    R.outcomes['hist:partial-sum'] += 1
+                    R.violation('hist-partial-sum:%s' % prop,
+                                '%s %s(%g): a constituent raises %s but the '
+                                'estimate gave %r' % (ctx, prop, T, sorted(exs),
+                                                      got[:2]), wit)
+                continue
+            want = sum(c * p[1] for (k, c), p in zip(cons, parts))
+            if got[0] != 'ok':
+                R.outcomes['hist:raises'] += 1
+                R.violation('hist-raises:%s:%s' % (prop, got[1]),
+                            '%s %s(%g) raised %s; constituents give %r'
+                            % (ctx, prop, T, got[1], want), wit)
+            elif not E.is_plain_finite(got[1]) or \
+                    abs(float(got[1]) - want) > 1e-9 * max(1.0, abs(want)):
+                R.outcomes['hist:wrong-sum'] += 1
+                R.violation('hist-wrong-sum:%s' % prop,
+                            '%s %s(%g) = %r, sum over constituents = %r'
+                            % (ctx, prop, T, got[1], want), wit)
+            else:
+                R.outcomes['hist:sum-ok'] += 1
+
+
+def run_history(R, name, build, keystyle, steps, base=None, g1obj=None):
+    """One history on one library object of its own.  The model is the dict
+    `have`: descriptor name -> correlation object held by the harness."""
+    from pgradd.Error import GroupMissingDataError
+    wit = dict(kind='hist', lib=name, build=build, keys=keystyle,
+               steps=[[p, list(a)] for p, a in steps])
+    lib = W.history_library(name, build, base)
+    if g1obj is None:
+        g1obj = E.class_reps(lib)[0]
+    g1 = str(g1obj)
+    have = {g1: lib.contents[g1obj]['thermochem']}
+    corr = W.new_correlations()
+    objs = {g1: g1obj}
+    for d in W.NEW:
+        objs[d] = W.key_object(lib.scheme, d)
+
+    def key(x):
+        return objs[x] if keystyle == 'obj' else x
+
+    def observe(when):
+        for mapping in W.observation_mappings(g1):
+            ctx = '[%s/%s/%s keys] after %r, %s: Estimate(%r)' % (
+                name, build, keystyle, wit['steps'], when, mapping)
+            absent = sorted(x for x, _ in mapping if x not in have)
+            d = dict((key(x), c) for x, c in mapping)
+            r = E.ev(lib.Estimate, d, 'thermochem')
+            if not absent:
+                if r[0] != 'ok':
+                    R.evals += 1
+                    R.nontrivial += 1
+                    R.outcomes['hist:estimate-raises:' + r[1]] += 1
+                    R.violation('hist-estimate-raises:%s' % r[1],
+                                '%s: every descriptor has data by now but '
+                                'Estimate raised %s' % (ctx, r[1]), wit)
+                    continue
+                compare_history_sum(R, ctx, r[1],
+                                    [(have[x], c) for x, c in mapping], wit)
+                continue
+            R.evals += 1
+            R.nontrivial += 1
+            if r[0] == 'ok':
+                R.outcomes['hist:missing:returned-an-estimate'] += 1
+                R.violation('hist-missing-data-ignored',
+                            '%s: %r have no data (yet) but an estimate was '
+                            'returned' % (ctx, absent), wit)
+                continue
+            if r[1] != 'GroupMissingDataError':
+                R.outcomes['hist:missing:' + r[1]] += 1
+                R.violation('hist-missing-data-wrong-error:' + r[1],
+                            '%s: expected GroupMissingDataError, got %s'
+                            % (ctx, r[1]), wit)
+                continue
+            named = None
+            try:
+                lib.Estimate(d, 'thermochem')
+            except GroupMissingDataError as err:
+                named = sorted(str(g) for g in err.groups)
+            if named != absent:
+                R.outcomes['hist:missing:wrong-groups-named'] += 1
+                R.violation('hist-missing-data-wrong-groups',
+                            '%s: error names %r, descriptors without data are '
+                            '%r' % (ctx, named, absent), wit)
+            else:
+                R.outcomes['hist:missing:named-exactly'] += 1
+
+    def lookup(when, how):
+        for x in [g1] + W.NEW:
+            R.evals += 1
+            R.nontrivial += 1
+            if how == 'getitem':
+                r = E.ev(lambda: lib[key(x)])
+            else:
+                r = E.ev(lambda: lib.get(key(x)))
+            ok = r[0] == 'ok' and E.ev(
+                lambda: ('thermochem' in r[1]) == (x in have))[:2] == ('ok', True)
+            if ok:
+                R.outcomes['hist:lookup-ok'] += 1
+            else:
+                R.outcomes['hist:lookup-wrong'] += 1
+                R.violation('hist-lookup-wrong',
+                            '[%s/%s/%s keys] after %r, %s: %s of %r gave %r; '
+                            'it %s thermochem data' % (
+                                name, build, keystyle, wit['steps'], when, how,
+                                x, r[:2], 'has' if x in have else 'has no'),
+                            wit)
+
+    for n, (probe, adds) in enumerate(steps):
+        when = 'before Update #%d' % (n + 1)
+        if probe == 'estimate':
+            observe(when)
+        elif probe in ('getitem', 'get'):
+            lookup(when, probe)
+        r = E.ev(lib.Update, W.extra_library(lib.scheme, adds, corr))
+        R.evals += 1
+        R.nontrivial += 1
+        if r[0] != 'ok':
+            # whether Update() accepts an addition is C13's question; without
+            # it the premise "every descriptor has data" is not established
+            R.outcomes['hist:update-refused:' + r[1]] += 1
+            if not R.notes:
+                R.notes.append('[%s/%s] Update() adding %r raised %s: history '
+                               'ends without a verdict' % (name, build, adds, r[1]))
+            return
+        for d in adds:
+            have[d] = corr[d]
+    observe('after the last Update')
+
+
+def run_histories(R, name, build, base):
+    g1obj = None if base is None else E.class_reps(base)[0]
+    for keystyle in W.keystyles(name, build):
+        for steps in W.histories(build):
+            run_history(R, name, build, keystyle, steps, base, g1obj)
+
+
+def run_built(R, name):
+    if name.startswith('w3ctor:'):
+        run_histories(R, name, 'ctor', None)
+        return
+    base = W.private_load(name)     # never modified, never estimated on
+    run_synonyms(R, name, base)
+    run_histories(R, name, 'ctor', base)
+
+
 def shards(tier, seed):
     out = []
     for name in LIBS:
         n = 4 if tier == 'quick' else 16
         for i in range(n):
             out.append((name, i, n))
+    # third wave: built libraries, synonyms, histories (same in both tiers)
+    for i in range(3):
+        out.append(('w3-ctor', i, 3))
+    for name in LIBS + [W.HIST_CTOR_BASE]:
+        out.append(('w3-built', name))
+    for name in LIBS:
+        # a descriptor outside an uncertainty basis is C20's business
+        if name not in libs.UQ_LIBS:
+            out.append(('w3-loaded', name))
     return out
 
 
 def run_shard(shard, tier):
     R = Result()
-    run_lib(R, shard[0], shard[1], shard[2], tier)
+    if shard[0] == 'w3-ctor':
+        run_ctor(R, shard[1], shard[2])
+    elif shard[0] == 'w3-built':
+        run_built(R, shard[1])
+    elif shard[0] == 'w3-loaded':
+        run_histories(R, shard[1], 'loaded', None)
+    else:
+        run_lib(R, shard[0], shard[1], shard[2], tier)
     return R
 
 
 def replay(w):
     R = Result()
-    lib = E.fresh(w['lib'])
+    if w['kind'] == 'hist':
+        run_history(R, w['lib'], w['build'], w['keys'], w['steps'])
+        return dict(violates=bool(R.violations),
+                    detail='\n'.join(v['msg'] for v in R.violations) or 'holds')
+    lib = fresh(w['lib'])
     if w['kind'] == 'map':
         groups = {str(g): g for g in lib}
         mapping = [(groups.get(g, g), c) for g, c in w['mapping']]
